@@ -180,6 +180,15 @@ class PStr(View):
             return self
         if name in ('__str__',):
             return self
+        if name in ('rstrip', 'lstrip', 'strip') and len(args) <= 1:
+            # stripping characters: some infix of the string (over-approximation: which characters go is not followed;
+            # a refutation built on it carries no replayable input)
+            n = _z(self._len)
+            a = I.e.int('stripped_from') if name in ('lstrip', 'strip') else z3.IntVal(0)
+            b = I.e.int('stripped_to') if name in ('rstrip', 'strip') else n
+            I.e.assume(z3.And(0 <= a, a <= b, b <= n))
+            g = self._get
+            return PStr(b - a, lambda i, a=a: g(a + i), tag=f'{self.tag}.{name}()', kind=self.kind)
         raise Unsupported(f'str.{name} on a symbolic string')
 
     def __repr__(self):
